@@ -1328,6 +1328,23 @@ def call_ext(it, dotted, args, kwargs):
         if short == 'neg':
             return binop(it, ast.Sub(), 0, args[0])
         return binop(it, ops[short](), args[0], args[1])
+    if mod == 'operator' and short in ('le', 'ge', 'lt', 'gt', 'eq', 'ne') and len(args) == 2:
+        return it.compare_vals(short, args[0], args[1])
+    if mod == 'operator' and short in ('is_', 'is_not') and len(args) == 2:
+        r_ = it._is(args[0], args[1])
+        return r_ if short == 'is_' else not r_
+    if mod == 'operator' and short == 'attrgetter' and args and all(isinstance(a, str) for a in args):
+        names_ = list(args)
+        from .values import PyFunc
+
+        def getter(it2, a, k):
+            def one(nm):
+                o = a[0]
+                for part in nm.split('.'):
+                    o = it2.getattr(o, part)
+                return o
+            return one(names_[0]) if len(names_) == 1 else tuple(one(n) for n in names_)
+        return PyFunc(getter, 'attrgetter')
     if short == 'itemgetter':
         k = args[0] if isinstance(args[0], str) else as_int(args[0])
         return _ItemGetter(k)
